@@ -238,6 +238,7 @@ pxgstrf_scheduler(const int_t pnum, const int_t n, const int_t *etree,
     } /* if jcol != empty */
 
     *cur_pan = jcol;
+    SLU_MT_VEV(VE_SCHED_RET, pnum, jcol, *bcol);
 
 #if ( DEBUGlevel>=1 )
     printf("(%d) Exit C.S. tasks_remain %d, cur_pan %d\n", 
